@@ -110,6 +110,9 @@ func (fr *Frame) callStatic(instr ssa.Instruction, callee *ssa.Function, bind []
 		}
 	}
 	name := callee.Name()
+	if k := strings.Index(name, "["); k > 0 {
+		name = name[:k] // instantiation of a generic function: Get[string,...] is addressed as Get
+	}
 	site := fr.callSite(name)
 	fr.checkAsserts(name, st, reach)
 	if v, ok := fr.nativeModel(instr, full, callee, args, st, reach, rt); ok {
